@@ -675,87 +675,145 @@ func genPlumb(c *Ctx) error {
 	fmt.Fprintf(&sb, "def defaultOpenerParams : List String := %s\n", LeanStrList(rcfParamNames(uo)))
 	fmt.Fprintf(&sb, "def defaultOpenerCalls : List (List String) := [%s]\n", strings.Join(uoc, ", "))
 
-	// --- conn.initConnUDP: SetReadBuffer / SetWriteBuffer arguments
-	cp, err := c.Pkg("private/underlay/conn")
+	// --- conn.initConnUDP: EVERY call that sets a buffer-size socket option, in source order,
+	// with the option it sets and the configuration field its argument comes from
+	init_, err := c.Func("private/underlay/conn", "connUDPBase", "initConnUDP")
 	if err != nil {
 		return err
 	}
-	type bufCall struct{ fn, arg, guard string }
-	var bcs []bufCall
-	for _, f := range cp.files {
-		if !strings.HasSuffix(c.fset.Position(f.Pos()).Filename, "conn_linux.go") {
+	if !strings.HasSuffix(c.fset.Position(init_.Pos()).Filename, "conn_linux.go") {
+		// the Linux build is the one examined; make sure that is the declaration we got
+		cp, _ := c.Pkg("private/underlay/conn")
+		init_ = nil
+		for _, f := range cp.files {
+			if !strings.HasSuffix(c.fset.Position(f.Pos()).Filename, "conn_linux.go") {
+				continue
+			}
+			for _, d := range f.Decls {
+				if fd, ok := d.(*ast.FuncDecl); ok && fd.Name.Name == "initConnUDP" {
+					init_ = fd
+				}
+			}
+		}
+		if init_ == nil {
+			return fmt.Errorf("conn_linux.go: initConnUDP not found")
+		}
+	}
+	// optOf classifies a call: which buffer option does it set, with which argument expression
+	optOf := func(ce *ast.CallExpr) (opt string, arg ast.Expr) {
+		fn := c.Expr(ce.Fun)
+		base := fn
+		if i := strings.LastIndex(fn, "."); i >= 0 {
+			base = fn[i+1:]
+		}
+		switch {
+		case base == "SetReadBuffer" && len(ce.Args) == 1:
+			return "SO_RCVBUF", ce.Args[0]
+		case base == "SetWriteBuffer" && len(ce.Args) == 1:
+			return "SO_SNDBUF", ce.Args[0]
+		case strings.HasPrefix(base, "Setsockopt") && len(ce.Args) >= 4:
+			o := c.Expr(ce.Args[2])
+			if i := strings.LastIndex(o, "."); i >= 0 {
+				o = o[i+1:]
+			}
+			if strings.Contains(o, "BUF") {
+				return o, ce.Args[3]
+			}
+		}
+		return "", nil
+	}
+	dirOf := map[string]string{"SO_RCVBUF": "rcv", "SO_RCVBUFFORCE": "rcv", "SO_SNDBUF": "snd", "SO_SNDBUFFORCE": "snd"}
+	type setCall struct{ guard, fn, opt, field string }
+	var setCalls []setCall
+	inGuard := map[*ast.CallExpr]bool{}
+	var shapeErr error
+	for _, st := range init_.Body.List {
+		is, ok := st.(*ast.IfStmt)
+		if !ok {
 			continue
 		}
-		ast.Inspect(f, func(n ast.Node) bool {
-			is, ok := n.(*ast.IfStmt)
+		g := c.Expr(is.Cond)
+		if !(strings.HasPrefix(g, "cfg.") && strings.HasSuffix(g, " != 0")) {
+			continue
+		}
+		gfield := strings.TrimSuffix(strings.TrimPrefix(g, "cfg."), " != 0")
+		if !rcfContains(cf, gfield) {
+			continue
+		}
+		local := map[string]string{}
+		for _, a := range rcfAssignsIn(c, is.Body) {
+			if _, dup := local[a[0]]; !dup {
+				local[a[0]] = a[1]
+			}
+		}
+		ast.Inspect(is.Body, func(n ast.Node) bool {
+			ce, ok := n.(*ast.CallExpr)
 			if !ok {
 				return true
 			}
-			// only the outermost guard that directly rcfContains the Set*Buffer call
-			local := map[string]string{}
-			for _, st := range is.Body.List {
-				for _, a := range rcfAssignsIn(c, st) {
-					if _, dup := local[a[0]]; !dup {
-						local[a[0]] = a[1]
-					}
-				}
+			opt, arg := optOf(ce)
+			if opt == "" {
+				return true
 			}
-			for _, st := range is.Body.List {
-				for _, x := range rcfCallsTo(c, st, func(fn string) bool {
-					return strings.HasSuffix(fn, ".SetReadBuffer") || strings.HasSuffix(fn, ".SetWriteBuffer")
-				}) {
-					if len(x) != 2 {
-						continue
-					}
-					arg := x[1]
-					if v, ok := local[arg]; ok {
-						arg = v
-					}
-					fn := x[0][strings.LastIndex(x[0], ".")+1:]
-					bcs = append(bcs, bufCall{fn, arg, c.Expr(is.Cond)})
-				}
+			inGuard[ce] = true
+			a := c.Expr(arg)
+			if v, ok := local[a]; ok {
+				a = v
 			}
+			field := strings.TrimPrefix(a, "cfg.")
+			if field == a || !rcfContains(cf, field) {
+				shapeErr = fmt.Errorf("initConnUDP: %s(%s): argument %q is not a conn.Config field", c.Expr(ce.Fun), opt, a)
+				return false
+			}
+			if _, ok := dirOf[opt]; !ok {
+				shapeErr = fmt.Errorf("initConnUDP: unknown buffer option %s", opt)
+				return false
+			}
+			setCalls = append(setCalls, setCall{gfield, c.Expr(ce.Fun), opt, field})
 			return true
 		})
 	}
-	// keep the innermost-guard duplicates out: one entry per function name and argument
-	seenBC := map[string]bool{}
-	var uniq []bufCall
-	for _, b := range bcs {
-		k := b.fn + "|" + b.arg
-		if !seenBC[k] {
-			seenBC[k] = true
-			uniq = append(uniq, b)
-		}
+	if shapeErr != nil {
+		return shapeErr
 	}
-	for _, want := range []string{"SetReadBuffer", "SetWriteBuffer"} {
-		var got []bufCall
-		for _, b := range uniq {
-			if b.fn == want {
-				got = append(got, b)
+	// a buffer option set outside a `cfg.<Field> != 0` block is a shape the model does not know
+	ast.Inspect(init_.Body, func(n ast.Node) bool {
+		if ce, ok := n.(*ast.CallExpr); ok {
+			if opt, _ := optOf(ce); opt != "" && !inGuard[ce] {
+				shapeErr = fmt.Errorf("initConnUDP: %s sets %s outside a `cfg.<Field> != 0` block", c.Expr(ce.Fun), opt)
 			}
 		}
-		if len(got) != 1 {
-			return fmt.Errorf("conn_linux.go: expected exactly one guarded %s call, found %d", want, len(got))
-		}
-		b := got[0]
-		field := strings.TrimPrefix(b.arg, "cfg.")
-		if field == b.arg || !rcfContains(cf, field) {
-			return fmt.Errorf("conn_linux.go: %s(%s): argument is not a conn.Config field", want, b.arg)
-		}
-		gfield := ""
-		if strings.HasPrefix(b.guard, "cfg.") && strings.HasSuffix(b.guard, " != 0") {
-			gfield = strings.TrimSuffix(strings.TrimPrefix(b.guard, "cfg."), " != 0")
-		}
-		if !rcfContains(cf, gfield) {
-			return fmt.Errorf("conn_linux.go: %s: guard %q is not `cfg.<Field> != 0`", want, b.guard)
-		}
-		opt := map[string]string{"SetReadBuffer": "soRcvBuf", "SetWriteBuffer": "soSndBuf"}[want]
-		fmt.Fprintf(&sb, "/-- `if %s { … conn.%s(%s) }` in `initConnUDP` (none = left at the system default) -/\n",
-			b.guard, want, b.arg)
-		fmt.Fprintf(&sb, "def %s (cfg : ConnConfig) : Option Int :=\n  if cfg.%s ≠ 0 then some cfg.%s else none\n",
-			opt, rcfLeanIdent(gfield), rcfLeanIdent(field))
+		return true
+	})
+	if shapeErr != nil {
+		return shapeErr
 	}
+	if len(setCalls) == 0 {
+		return fmt.Errorf("initConnUDP: no buffer-size option is set")
+	}
+	var rows []string
+	for _, sc := range setCalls {
+		rows = append(rows, fmt.Sprintf("(%q, %q, %q, %q)", sc.guard, sc.fn, sc.opt, sc.field))
+	}
+	fmt.Fprintf(&sb, "/-- every call of `initConnUDP` (conn_linux.go) that sets a buffer-size socket option, in source\n"+
+		"order: (guarding `cfg.<Field> != 0`, callee, option, configuration field of the argument) -/\n"+
+		"def bufSetCalls : List (String × String × String × String) :=\n  [%s]\n", strings.Join(rows, ",\n   "))
+	// the same as a state transformer on (SO_RCVBUF, SO_SNDBUF) requests; a call inside a retry
+	// branch is taken to happen (the branch is reachable when the kernel clamps the first request)
+	sb.WriteString("/-- what the kernel is asked for, option by option, after all of those calls " +
+		"(none = never set: system default) -/\n")
+	sb.WriteString("def requested (cfg : ConnConfig) : Option Int × Option Int :=\n  let st : Option Int × Option Int := (none, none)\n")
+	for _, sc := range setCalls {
+		upd := "(some cfg." + rcfLeanIdent(sc.field) + ", st.2)"
+		if dirOf[sc.opt] == "snd" {
+			upd = "(st.1, some cfg." + rcfLeanIdent(sc.field) + ")"
+		}
+		fmt.Fprintf(&sb, "  -- %s: %s <- cfg.%s\n  let st := if cfg.%s ≠ 0 then %s else st\n", sc.fn, sc.opt, sc.field,
+			rcfLeanIdent(sc.guard), upd)
+	}
+	sb.WriteString("  st\n")
+	sb.WriteString("def soRcvBuf (cfg : ConnConfig) : Option Int := (requested cfg).1\n")
+	sb.WriteString("def soSndBuf (cfg : ConnConfig) : Option Int := (requested cfg).2\n")
 
 	sb.WriteString("end Scion.Gen.Plumb\n")
 	return c.Emit("Plumb.lean", sb.String())
